@@ -21,4 +21,35 @@ def vmFieldsCovered : Bool :=
 def frameFieldsCovered : Bool :=
   frameFields.all (fun f => savedFrameFields.contains f || transientFrameFields.contains f)
 
+/-! ### every saved / restored field takes its value from the field of the same name of the SAME record
+
+`save_state` builds a `SavedTrampolineFrame` per suspended caller from `frame.*` and the `SavedVmState` from
+`self.*`; `from_saved_state` builds each `TrampolineFrame` from `saved.*` and the VM from `state.*`.
+The reviewed exceptions are listed with their reason. -/
+
+/-- a frame is saved from its own fields -/
+def saveFrameFaithful : Bool := saveFrameSources.all (fun p => p.2 == "frame." ++ p.1)
+
+/-- the running VM is saved from its own fields; `frames` is `call_stack`; the trampoline frames and the pending
+    completion are converted just above the literal (locals of the same name); the environment is the interpreter's;
+    the guard is the one the saved objects were put under -/
+def saveVmFaithful : Bool := saveVmSources.all (fun p =>
+  p.2 == "self." ++ p.1 || p == ("frames", "self.call_stack") || p == ("trampoline_stack", "saved_trampoline_stack")
+    || p == ("pending_completion", "pending_completion") || p == ("interp_env", "interp.env") || p == ("guard", "Some"))
+
+/-- a frame is restored from the saved frame's fields; its register guard is created afresh -/
+def restoreFrameFaithful : Bool := restoreFrameSources.all (fun p =>
+  p.2 == "saved." ++ p.1 || p == ("register_guard", "frame_guard"))
+
+/-- the VM is restored from the saved state's fields; `this` may be overridden by the resumer (generators),
+    pools start empty -/
+def restoreVmFaithful : Bool := restoreVmSources.all (fun p =>
+  p.2 == "state." ++ p.1 || p == ("register_guard", "guard") || p == ("call_stack", "state.frames") || p == ("this_value", "this_value")
+    || p == ("trampoline_stack", "trampoline_stack") || p == ("register_pool", "Vec::new") || p == ("arguments_pool", "Vec::new"))
+
+/-- the literals mention every field of their record exactly once -/
+def literalsComplete : Bool :=
+  saveFrameSources.map (·.1) == savedFrameFields && restoreFrameSources.map (·.1) == frameFields
+    && saveVmSources.map (·.1) == savedVmFields.filter (· != "guard") ++ ["guard"] && restoreVmSources.map (·.1) == vmFields
+
 end TsrunVerif.Gen
